@@ -241,6 +241,11 @@ def scenarios(seed):
         "negative-stride": (base[:4], base[3::-1]),
         "equal-contents-other-buffer": (base[:4], base[:4].copy()),
         "fortran-order": (sq, np.asfortranarray(sq)),
+        # same start, same strides, same dtype -- only the LENGTH differs (a prefix view), both visiting orders
+        "prefix-view-long-first": (base[:12], base[:4]),
+        "prefix-view-short-first": (base[:4], base[:12]),
+        "prefix-view-2d": (sq[:2], sq),
+        "prefix-view-2d-short-first": (sq[:1], sq[:3]),
     }
     for k, (a, b) in views.items():
         da, db = pt.make_data_wrapper(a), pt.make_data_wrapper(b)
@@ -518,7 +523,7 @@ def run(ctx: common.Ctx):
     from . import c05_idempotence
     c05_idempotence.check_idempotence(ctx, T, fingerprint)
     from . import c05_dup_edges
-    c05_dup_edges.check_duplicates_on_every_edge(ctx, T)
+    c05_dup_edges.check_duplicates_on_every_edge(ctx, T, same_up_to_tags)
     ctx.note_batch("transformations-vs-reference", cases, dis, exhaustive=False, programs=N, scenarios=len(scen), applications=per,
                    pipelines=pipelines, not_supported=unsupported)
     # verified/structural checkers of the Lean heap model on the REAL inputs and results
